@@ -121,10 +121,11 @@ theorem C01_binding_start (ty p2 : Str) (n : Nat) (addr : List Nat) (b : Str × 
     simp only [hp, Option.map_some, Option.some.injEq] at h
     rw [← h]; exact ⟨rfl, rfl⟩
 
-/-- **C01 (same text).** Tagging parses exactly `program.source` — the text that `collect` stores and
-the listings number: two program records with the same stored source get the same `node` bindings,
-whatever the parser does and whatever their other fields are. -/
-theorem C01_same_text (parse : Str → Option Val) (cfg : Cfg) (p q : ProgramRec)
+/-- "Same text" clause of the property (tagging parses exactly the source that Paroxython stores and
+shows): in this model it is a mere congruence — `tagNodes` reads `program.source` only — hence an
+`example`, not a theorem. The clause is **exercised only**: harness/c01.py records the text given to
+`ast.parse` during `TagDatabase(...)` and compares it with `programs_infos[path]["source"]`. -/
+example (parse : Str → Option Val) (cfg : Cfg) (p q : ProgramRec)
     (h : storedSource p = storedSource q) : tagNodes parse cfg p = tagNodes parse cfg q := by
   simp only [storedSource] at h
   simp [tagNodes, h]
